@@ -249,8 +249,17 @@ class Net:
         rec.update(kw)
         if self.log_events:
             self.events.append(rec)
-        for ob in self.observers:
-            ob(rec)
+        if self.observers:
+            # monitors run atomically with the event they observe: no line-level pre-emption while they read pool state
+            s = ENV.get("sched")
+            if s is not None:
+                s.no_preempt += 1
+            try:
+                for ob in self.observers:
+                    ob(rec)
+            finally:
+                if s is not None:
+                    s.no_preempt -= 1
         return rec
 
     def open_transports(self) -> list[Transport]:
@@ -484,7 +493,13 @@ class SimAsyncStream(httpcore.AsyncNetworkStream):
         if info == "ssl_object":
             return SSLObject(tr.layers[-1]["alpn"]) if tr.layers else None
         if info == "is_readable":
-            return tr.closed or tr.readable()
+            ans = tr.closed or tr.readable()
+            hook = getattr(tr, "after_poll", None)
+            if hook is not None:
+                # adversarial timing: something happens right after the client looked (the server hangs up, time passes)
+                tr.after_poll = None
+                hook()
+            return ans
         if info == "hv_transport":
             return tr
         if info == "server_addr":
@@ -641,7 +656,13 @@ class SimSyncStream(httpcore.NetworkStream):
         if info == "ssl_object":
             return SSLObject(tr.layers[-1]["alpn"]) if tr.layers else None
         if info == "is_readable":
-            return tr.closed or tr.readable()
+            ans = tr.closed or tr.readable()
+            hook = getattr(tr, "after_poll", None)
+            if hook is not None:
+                # adversarial timing: something happens right after the client looked (the server hangs up, time passes)
+                tr.after_poll = None
+                hook()
+            return ans
         if info == "hv_transport":
             return tr
         if info == "server_addr":
